@@ -100,6 +100,13 @@ def eval_test(test, facts):
     """Truth of `test` under `facts`: True / False / None."""
     if isinstance(test, ast.Constant):
         return bool(test.value)
+    if isinstance(test, (ast.Name, ast.Attribute)) and _pure(test):
+        k = ast.unparse(test)
+        al = facts.allowed.get(k)
+        if al:
+            tv = {bool(c.v) for c in al}
+            if len(tv) == 1:
+                return tv.pop()
     if isinstance(test, ast.UnaryOp) and isinstance(test.op, ast.Not):
         r = eval_test(test.operand, facts)
         return None if r is None else (not r)
@@ -374,6 +381,14 @@ class MustAnalysis:
             t = self.transfer(node, s.tokens)
             if t is None:
                 t = (s.tokens - k) | g
+            # constant propagation into the fact domain: x = <literal>
+            if pseudo is None and isinstance(node, ast.Assign) and len(node.targets) == 1 \
+                    and isinstance(node.targets[0], ast.Name):
+                c = _const_of(node.value)
+                if c is not None:
+                    if f is s.facts:
+                        f = f.copy()
+                    f.allowed[node.targets[0].id] = frozenset([c])
             out.append(St(f, frozenset(t)))
         return merge(out)
 
